@@ -230,13 +230,13 @@ func runC04(w *World, r *Report, tier string) {
 			// same *tls.Conn as Handshake and as the value stored to conn
 			tlsConn := vc.Call.Args[0]
 			hsSame, connSame := false, false
-			allInstrs(fn, func(in ssa.Instruction) {
+			allInstrsH(fn, func(in ssa.Instruction) {
 				if c, okc := in.(*ssa.Call); okc && w.isCallTo("crypto/tls.Conn.Handshake", "crypto/tls.Conn.HandshakeContext")(in) && len(c.Call.Args) > 0 && c.Call.Args[0] == tlsConn {
 					hsSame = true
 				}
 				if st, oks := in.(*ssa.Store); oks {
 					if fa, okf := st.Addr.(*ssa.FieldAddr); okf && fieldOfAddr(fa) == fConn {
-						if mi, okm := st.Val.(*ssa.MakeInterface); okm && mi.X == tlsConn {
+						if mi, okm := originIn(fn, st.Val).(*ssa.MakeInterface); okm && mi.X == tlsConn {
 							connSame = true
 						}
 					}
@@ -275,14 +275,36 @@ func runC04(w *World, r *Report, tier string) {
 			r.Undecided("O4", cons, w.ipos(a.Instr), "conn is written through "+a.Kind)
 			continue
 		}
-		fn := a.Fn
-		// path entry -> store -> exit must contain a flag store
-		before, _ := mustPass(entryLoc(fn), func(in ssa.Instruction) bool { return in == a.Instr }, isFlagStore, nil)
-		afterOK, wit := mustPass(after(a.Instr), isReturn, isFlagStore, nil)
-		if before || afterOK {
+		// in every function on whose behalf the store runs: each path through the store also stores the flag
+		bad := ""
+		for _, o := range w.owners(a.Fn) {
+			n := 0
+			err := walkPaths(entryLoc(o), nil, nil, 200000, func(path []ssa.Instruction, end pathEnd) {
+				if end == endCycle {
+					return
+				}
+				if _, isRet := path[len(path)-1].(*ssa.Return); !isRet {
+					return
+				}
+				if countOn(path, func(in ssa.Instruction) bool { return in == a.Instr }) == 0 {
+					return
+				}
+				n++
+				if countOn(path, isFlagStore) == 0 {
+					bad = "in " + w.funcKey(o) + " (return at " + w.ipos(path[len(path)-1]) + ")"
+				}
+			})
+			if err != nil {
+				bad = err.Error()
+			}
+			if n == 0 && bad == "" {
+				bad = "the store is not on any path of " + w.funcKey(o)
+			}
+		}
+		if bad == "" {
 			r.Ok("O4", cons, "every path through the store of conn also stores isSecure")
 		} else {
-			r.Fail("O4", cons, w.ipos(a.Instr), "conn is replaced but isSecure keeps its previous value on path "+pathString(w, wit)+" — the flag no longer describes the current connection (history: TLS session, connection lost, reconnect: IsSecure() still true on a plain TCP connection, STARTTLS and the gate are skipped, <auth/> goes out in clear text)")
+			r.Fail("O4", cons, w.ipos(a.Instr), "conn is replaced but isSecure keeps its previous value "+bad+" — the flag no longer describes the current connection (history: TLS session, connection lost, reconnect: IsSecure() still true on a plain TCP connection, STARTTLS and the gate are skipped, <auth/> goes out in clear text)")
 		}
 	}
 	r.Floor("O4", 2)
@@ -337,23 +359,35 @@ func runC04(w *World, r *Report, tier string) {
 			continue
 		}
 		cons := w.funcKey(a.Fn) + "#store:TLSConfig"
-		okv := false
-		switch v := a.Val.(type) {
-		case *ssa.Alloc:
-			fields, _ := complitFields(v)
-			okv = true
-			for name := range fields {
-				if name == "InsecureSkipVerify" {
-					okv = false
-				}
+		var okTLS func(v ssa.Value, d int) bool
+		okTLS = func(v ssa.Value, d int) bool {
+			if d > 4 {
+				return false
 			}
-		case *ssa.Call:
-			if w.callKey(v) == "crypto/tls.Config.Clone" && len(v.Call.Args) == 1 {
-				if names := fieldNames(fieldPath(v.Call.Args[0])); names == "Config.TLSConfig" {
-					okv = true
+			switch x := origin(v).(type) {
+			case *ssa.Alloc:
+				fields, _ := complitFields(x)
+				for name := range fields {
+					if name == "InsecureSkipVerify" {
+						return false
+					}
 				}
+				return true
+			case *ssa.Call:
+				if w.callKey(x) == "crypto/tls.Config.Clone" && len(x.Call.Args) == 1 {
+					return fieldNames(fieldPath(x.Call.Args[0])) == "Config.TLSConfig"
+				}
+			case *ssa.Phi:
+				for _, e := range x.Edges {
+					if !okTLS(e, d+1) {
+						return false
+					}
+				}
+				return len(x.Edges) > 0
 			}
+			return false
 		}
+		okv := okTLS(a.Val, 0)
 		r.Check(okv, "O5", cons, w.ipos(a.Instr), "the TLS configuration used for the handshake is neither the application's clone nor a fresh zero value", "application clone or zero value")
 	}
 	_ = st
